@@ -73,3 +73,29 @@ Proof.
   - pose proof (autoencoder_shape _ _ He Hd ltac:(rewrite Hc, Hu; reflexivity) h) as E. rewrite Hc in E. exact E.
 Qed.
 Print Assumptions C19_kurka_shapes.
+
+(* the Tung-2022 DeepJSCC-Q (four strided blocks) and DeepJSCC-Q2 (two strided blocks) encoders / decoders, as lists of residual /
+   attention / upsampling blocks regenerated from the source; the two branches of a strided block agree on every size *)
+Theorem C19_tung_shapes : forall h,
+  (through tung_q_encoder (16 * h)%Z = h /\ through tung_q_decoder (through tung_q_encoder (16 * h)%Z) = (16 * h)%Z) /\
+  (through tung_q2_encoder (4 * h)%Z = h /\ through tung_q2_decoder (through tung_q2_encoder (4 * h)%Z) = (4 * h)%Z).
+Proof.
+  assert (He : down_only tung_q_encoder = true) by (vm_compute; reflexivity).
+  assert (Hd : up_only tung_q_decoder = true) by (vm_compute; reflexivity).
+  assert (Hc : count_half tung_q_encoder = 4%nat) by (vm_compute; reflexivity).
+  assert (Hu : count_double tung_q_decoder = 4%nat) by (vm_compute; reflexivity).
+  assert (He2 : down_only tung_q2_encoder = true) by (vm_compute; reflexivity).
+  assert (Hd2 : up_only tung_q2_decoder = true) by (vm_compute; reflexivity).
+  assert (Hc2 : count_half tung_q2_encoder = 2%nat) by (vm_compute; reflexivity).
+  assert (Hu2 : count_double tung_q2_decoder = 2%nat) by (vm_compute; reflexivity).
+  intro h. split; split.
+  - pose proof (encoder_shape _ He h) as E. rewrite Hc in E. exact E.
+  - pose proof (autoencoder_shape _ _ He Hd ltac:(rewrite Hc, Hu; reflexivity) h) as E. rewrite Hc in E. exact E.
+  - pose proof (encoder_shape _ He2 h) as E. rewrite Hc2 in E. exact E.
+  - pose proof (autoencoder_shape _ _ He2 Hd2 ltac:(rewrite Hc2, Hu2; reflexivity) h) as E. rewrite Hc2 in E. exact E.
+Qed.
+Print Assumptions C19_tung_shapes.
+
+Theorem C19_strided_block_branches_agree : forall h, out_size (Conv 3 2 1) h = out_size (Conv 1 2 0) h /\ out_size (Conv 3 2 1) h = out_size (Block Half) h.
+Proof. exact stride_block_branches_agree. Qed.
+Print Assumptions C19_strided_block_branches_agree.
